@@ -116,7 +116,11 @@ def make_abort_scn(rng, base, point, kind):
     scn['family'] = 'S3'
     scn['seats'][actor]['kind'] = 'scripted'
     scn['abort'] = {'kind': 'offend', 'what': kind, 'seat': actor, 'board': b, 'phase': phase,
-                    'index': index, 'raw': raw}
+                    'index': index, 'raw': raw,
+                    # the misbehaving program crashes right after its offending action: its
+                    # connection is closed (reset, when it had unread data) by the time the table
+                    # manager tries to tell it so
+                    'crash': rng.random() < 0.3}
     return scn
 
 
@@ -422,6 +426,11 @@ def run_task(task):
                 scn = make_abort_scn(rng, base, pt, rng.choice(kinds))
                 if scn is None:
                     continue
+                if scn['abort'].get('crash'):
+                    # should the table manager come to a standstill instead of abandoning the
+                    # session (it could not reach the program that had crashed), the operator
+                    # interrupts it: the log must be complete then as well
+                    sched['interrupt_on_hang'] = True
             sample, _ = run_one(scn, sched, props, st, findings, 's3:' + sched['label'])
             if len(samples) < 2:
                 samples.append(sample)
